@@ -4,7 +4,7 @@ Property theorems only. Every byte-level fact is closed by `decide +kernel` over
 whole finite table (256 entries) and lifted to `UInt8`.
 -/
 import OAP.Model.Handshake
-import OAP.Proofs.GenFuncs
+import OAP.Proofs.GenFuncsHs
 namespace OAP.C18
 open OAP OAP.Handshake
 
@@ -139,10 +139,8 @@ theorem generated_unpack_pack (h : Handshake) (g0 : Gen.Fn.GHandshake) (hw : h.W
   rw [pack_is_generated]; show (Gen.Fn.protocol_Handshake_Unpack g0 (pack h)).map GenFuncs.hsM = .ok h
   rw [unpack_is_generated]; exact unpack_pack h hw
 
-/-- the functions the extractor managed to translate in this run (a function that leaves the translatable subset disappears here) -/
+/-- both handshake functions were inside the translatable subset in this run (a function that leaves it disappears from the list) -/
 theorem functions_translated :
-    Gen.Fn.translated = ["protocol.Handshake.Pack", "protocol.Handshake.Unpack", "protocol..unmarshalStringLength", "protocol..marshalString",
-      "v1.Header.IsUnknownPacket", "v1.Header.length", "v1.Header.Pack", "v1.Header.UnpackBytes",
-      "v2.Header.length", "v2.Header.Pack", "v2.Header.UnpackBytes"] := by decide
+    "protocol.Handshake.Pack" ∈ Gen.Fn.translated ∧ "protocol.Handshake.Unpack" ∈ Gen.Fn.translated := by decide
 
 end OAP.C18
